@@ -201,6 +201,33 @@ func c13RoundRobin(c *Ctx) {
 	}
 	// cursor phis: integer phis in the loop headers named i
 	isOne := func(v ssa.Value) bool { k, ok := v.(*ssa.Const); return ok && k.Value != nil && constant.Compare(k.Value, token.EQL, constant.MakeInt64(1)) }
+	// the cursor: integer phis (at the loop heads) that are used, directly or after `+ 1`, as the left operand of
+	// `… % len(members)` in the index of a candidate assignment — whatever the variable is called
+	cursorPhis := map[*ssa.Phi]bool{}
+	for _, r := range *cell.Referrers() {
+		st, ok := r.(*ssa.Store)
+		if !ok || st.Addr != ssa.Value(cell) {
+			continue
+		}
+		if u, ok := st.Val.(*ssa.UnOp); ok && u.Op == token.MUL {
+			if ia, ok := u.X.(*ssa.IndexAddr); ok {
+				if bo, ok := ia.Index.(*ssa.BinOp); ok && bo.Op == token.REM {
+					v := bo.X
+					if b2, ok := v.(*ssa.BinOp); ok && b2.Op == token.ADD {
+						v = b2.X
+					}
+					if ph, ok := v.(*ssa.Phi); ok {
+						cursorPhis[ph] = true
+						for _, e := range ph.Edges {
+							if p2, ok := e.(*ssa.Phi); ok {
+								cursorPhis[p2] = true
+							}
+						}
+					}
+				}
+			}
+		}
+	}
 	// every store into the candidate cell
 	nStores := 0
 	for _, r := range *cell.Referrers() {
@@ -226,7 +253,7 @@ func c13RoundRobin(c *Ctx) {
 		// the cursor value used is the one that flows on (it reaches a cursor phi from this block, or is one)
 		if good {
 			flows := false
-			if ph, ok := cursor.(*ssa.Phi); ok && ph.Comment == "i" {
+			if ph, ok := cursor.(*ssa.Phi); ok && cursorPhis[ph] {
 				flows = true
 			}
 			for _, su := range st.Block().Succs {
@@ -257,7 +284,7 @@ func c13RoundRobin(c *Ctx) {
 		if !ok {
 			break
 		}
-		if ph.Comment != "i" {
+		if !cursorPhis[ph] {
 			continue
 		}
 		okAdvance = true
@@ -273,7 +300,7 @@ func c13RoundRobin(c *Ctx) {
 			// the operand is the cursor current at plan.Add: the outer phi itself or the skip loop's phi fed by it
 			cur := bo.X
 			okCur := cur == ssa.Value(ph)
-			if ip, ok := cur.(*ssa.Phi); ok && ip.Comment == "i" {
+			if ip, ok := cur.(*ssa.Phi); ok && cursorPhis[ip] {
 				okCur = true
 				for _, e := range ip.Edges {
 					if e == ssa.Value(ph) {
